@@ -149,7 +149,9 @@ def judge(case, res, out, replay):
                 out.violation('shutdown:still-started', 'Deep.started is still true after %s (faults %s)' % (
                     op, case['faults']), witness, replay)
                 return False
-            missing = [p for p, n in o['plugin_shutdowns'].items() if n < 1]
+            missing = [p for p, n in o['plugin_shutdowns'].items() if n < 1] + sorted(
+                '%s (%d object(s) created by a start and not shut down)' % kv
+                for kv in (o.get('plugin_objects_never_shut_down') or {}).items())
             if missing:
                 out.violation('shutdown:plugin-not-shut-down', 'after %s plugins %s were never shut down (faults %s)' % (
                     op, missing, case['faults']), witness, replay)
@@ -297,10 +299,15 @@ def child_lifecycle(case):
 
     def observe(op):
         ps = {}
+        never_shut = {}     # plugin objects the agent created (also by an earlier start) and has not shut down
         for i in range(case['nplug']):
             insts = [x for lst in plugins.INSTANCES.values() for x in lst if x.class_name == 'Life%d' % i]
             if insts:
                 ps['Life%d' % i] = len(plugins.events('Life%d' % i, 'shutdown'))
+                shut = {e[4]['instance'] for e in plugins.events('Life%d' % i, 'shutdown') if e[4]}
+                left = [x for x in insts if id(x) not in shut]
+                if left:
+                    never_shut['Life%d' % i] = len(left)
         growth = None
         timers_now = timers()        # read at the moment the operation returned
         if op.startswith('shutdown') and not case['no_trace']:
@@ -309,7 +316,7 @@ def child_lifecycle(case):
             growth = len(srv.polls) - n1
         obs.append({'op': op, 'hooks': hooks(), 'timers': timers_now, 'polls_after_shutdown': growth,
                     'started': bool(agent.started),
-                    'plugin_shutdowns': ps, 'accepted': accepted[0] if op.startswith('shutdown') else None,
+                    'plugin_shutdowns': ps, 'plugin_objects_never_shut_down': never_shut, 'accepted': accepted[0] if op.startswith('shutdown') else None,
                     'attempted': len(srv.snapshots),
                     'distinct_snapshot_ids': len({bytes(rec[0].ID) for rec in srv.snapshots})})
 
